@@ -302,7 +302,9 @@ def project(root, top='Manifest', namer=None, cidnames=None, max_nodes=4000):
                     continue
                 contents[r] = data
                 nodes.append({'p': namer.path(r), 'k': 'file', 'h': hidden, 'cid': cidname(data),
-                              'size': len(data), 'mt': int(st.st_mtime) - BASE_MTIME,
+                              'size': len(data),
+                              # tenths of a second since BASE_MTIME (clamped: TLC integers are 32 bit)
+                              'mt': max(min(st.st_mtime_ns // 10**8 - BASE_MTIME * 10, 2000000000), -2000000000),
                               'dev': st.st_dev % 100000, 'ino': 0, 'loop': False,
                               'lp': namer.path(logical_path(r))})
             else:
